@@ -25,6 +25,7 @@ chains refine the cursor for all call sequences (`C10_refines_paged`).  Paging i
 -/
 import Ldap3V.Lemmas.StreamC10
 import Ldap3V.Lemmas.StreamPagedFinish
+import Ldap3V.Lemmas.GenPure
 namespace Ldap3V.Stream
 open Spec
 
@@ -256,5 +257,15 @@ theorem paged_early_finish_is_cancelled :
       [.start ⟨1, true⟩, .next, .next, .state, .finish] =
     [.started .ok, .item (.ok (some ⟨.entry, 1, none, []⟩)), .item (.err (.op 0)), .st .error,
      .result cancelled] := by decide +kernel
+
+/-! ### tie by regeneration (translate/pure_fns.py): which protocolOp numbers the *current*
+src/search.rs calls a reference / an intermediate message (the `Kind` of an item: `EntriesOnly` and
+`Ldap::search` branch on exactly these two methods). -/
+
+/-- `ResultEntry::is_ref` is "tag number 19" and `is_intermediate` is "tag number 25", for every tag number -/
+theorem C10_item_kinds_source (id : Nat) :
+    Gen.resultEntry_is_ref id = some (id == 19) ∧ Gen.resultEntry_is_intermediate id = some (id == 25) :=
+  ⟨gen_is_ref id, gen_is_intermediate id⟩
+
 
 end Ldap3V.Stream
